@@ -29,8 +29,9 @@ package pcs
 //@ func asn1OctetString(ext, field, size) (r, err)
 //@   at Unmarshal: requires[fresh-decode-target] pristine(arg1)
 //@   ensures[nil] ext == nil ==> err != nil
-//@   ensures[direct] ext != nil && len(ext.Value) == size ==> err == nil && r == ext.Value
+//@   ensures[direct] ext != nil && len(ext.Value) == size ==> err == nil && r == ext.Value && seq(r) == seq(ext.Value)
 //@   ensures[size] err == nil && size >= 0 ==> len(r) == size
+//@   ensures[nested] ext != nil && len(ext.Value) != size && err == nil ==> seq(r) == seq(asn1decode("[]byte", seq(ext.Value)))
 
 //@ func findMatchingExtension(extns, oid) (r, err)
 //@   ensures[first] err == nil ==> r != nil && (exists k :: 0 <= k && k < len(extns) && seq(extns[k].Id) == seq(oid)
@@ -69,12 +70,44 @@ package pcs
 //@   at Unmarshal: requires[fresh-decode-target] pristine(arg1)
 //@   ensures[ok] err == nil ==> r != nil && len(r.CPUSvnComponents) == 16
 
+// An octet-string element (PPID, PCE-ID, FMSPC) as encoding/asn1 decodes it:
+// a pkix.Extension whose Value holds the bytes directly (the usual encoding) or
+// a nested OCTET STRING.  octStr(encoding, size) names the hex string that
+// extraction has to return for it; its definition is the `assumes` clause below
+// (a definition of a spec function, not an assumption about the code).
+//@ define octExt(e) = asn1decode("pkix.Extension", seq(e.FullBytes))
+//@ define octHex(e, size) = ite(len(octExt(e).Value) == size, hexenc(seq(octExt(e).Value)), hexenc(seq(asn1decode("[]byte", seq(octExt(e).Value)))))
+//@ uf octStr(ByteSeq, BV64) Str
+
 //@ func extractAsn1OctetStringExtension(name, extension, size) (r, err)
+//@   at Unmarshal: requires[fresh-decode-target] pristine(arg1)
+//@   assumes[octet-string-definition] octStr(seq(extension.FullBytes), size) == octHex(extension, size)
+//@   ensures[value] err == nil ==> r == octStr(seq(extension.FullBytes), size)
+
+// The elements of the SGX extension sequence as encoding/asn1 decodes them.
+// Each of PPID, PCE-ID and FMSPC is taken from an element carrying its OID,
+// wherever that element stands in the sequence (with distinct OIDs, as in every
+// certificate: from the one element with that OID), and no element is skipped:
+// if a TCB element is present its sixteen components were extracted.
+//@ define sgxElem(exts, k) = asn1decode("pkix.AttributeTypeAndValue", seq(exts[k].FullBytes))
+//@ define sgxIs(exts, k, oid) = oidEq(seq(sgxElem(exts, k).Type), seq(oid))
+//@ define ppidFrom(exts, k, n, p) = exists k2 :: k <= k2 && k2 < n && sgxIs(exts, k2, OidPPID) && p.PPID == octStr(seq(exts[k2].FullBytes), 16)
+//@ define pceidFrom(exts, k, n, p) = exists k2 :: k <= k2 && k2 < n && sgxIs(exts, k2, OidPCEID) && p.PCEID == octStr(seq(exts[k2].FullBytes), 2)
+//@ define fmspcFrom(exts, k, n, p) = exists k2 :: k <= k2 && k2 < n && sgxIs(exts, k2, OidFMSPC) && p.FMSPC == octStr(seq(exts[k2].FullBytes), 6)
 
 //@ func extractSgxExtensions(extensions) (r, err)
 //@   fresh r
 //@   at Unmarshal: requires[fresh-decode-target] pristine(arg1)
 //@   ensures[ok] err == nil ==> r != nil && len(extensions) >= 4
+//@   ensures[ppid] err == nil ==> (forall k :: 0 <= k && k < len(extensions) && sgxIs(extensions, k, OidPPID) ==> ppidFrom(extensions, k, len(extensions), r))
+//@   ensures[pceid] err == nil ==> (forall k :: 0 <= k && k < len(extensions) && sgxIs(extensions, k, OidPCEID) ==> pceidFrom(extensions, k, len(extensions), r))
+//@   ensures[fmspc] err == nil ==> (forall k :: 0 <= k && k < len(extensions) && sgxIs(extensions, k, OidFMSPC) ==> fmspcFrom(extensions, k, len(extensions), r))
+//@   ensures[tcb-not-skipped] err == nil ==> (forall k :: 0 <= k && k < len(extensions) && sgxIs(extensions, k, OidTCB) ==> len(r.TCB.CPUSvnComponents) == 16)
+//@   loop 0: invariant localof("*PckExtensions") != nil && fresh(localof("*PckExtensions"))
+//@   loop 0: invariant forall k :: 0 <= k && k < loopindex && sgxIs(extensions, k, OidPPID) ==> ppidFrom(extensions, k, loopindex, localof("*PckExtensions"))
+//@   loop 0: invariant forall k :: 0 <= k && k < loopindex && sgxIs(extensions, k, OidPCEID) ==> pceidFrom(extensions, k, loopindex, localof("*PckExtensions"))
+//@   loop 0: invariant forall k :: 0 <= k && k < loopindex && sgxIs(extensions, k, OidFMSPC) ==> fmspcFrom(extensions, k, loopindex, localof("*PckExtensions"))
+//@   loop 0: invariant forall k :: 0 <= k && k < loopindex && sgxIs(extensions, k, OidTCB) ==> len(localof("*PckExtensions").TCB.CPUSvnComponents) == 16
 
 //@ func PckCertificateExtensions(cert) (r, err)
 //@   fresh r
